@@ -180,6 +180,13 @@ var c20Pool = []string{
 	"//line parser.y:2\npackage pkg\n\nimport \"bytes\"\n\nvar Buf bytes.Buffer\n",
 	"package pkg\n\nimport \"errors\"\n\nvar ErrX = errors.New(\"x\")\n\n//line other.y:10\nfunc g() error { return ErrX }\n",
 	"package pkg\n\nconst K = 1\n",
+	// the same paths as above under other names: one file's view of a package (its alias) must not
+	// reach the other files saved through the same restorer
+	"package pkg\n\nimport str \"strings\"\n\nvar C = str.ToLower(\"X\")\n",
+	"package pkg\n\nimport (\n\tf \"fmt\"\n\tstr \"os\"\n)\n\nvar D = f.Sprint(str.Args)\n",
+	"package pkg\n\nimport \"strings\"\n\nvar E = strings.Repeat(\"a\", 2)\n",
+	"package pkg\n\nimport (\n\tfmt2 \"fmt\"\n\tio \"bytes\"\n)\n\nvar F = fmt2.Sprint(io.MinRead)\n",
+	"package pkg\n\nimport . \"errors\"\n\nvar ErrY = New(\"y\")\n",
 }
 
 var c20FailPaths = []string{"fmt", "os", "io", "bytes", "errors"}
